@@ -1,12 +1,15 @@
 //@ include prelude/header.rs
-//@ unit U16 utils/process.rs: the two critical sections on CALLER and the waiter's predicate (C20, sequential lock invariant; level `other`)
+//@ unit U16 utils/process.rs: the thread body, the launcher's section, the initial state and the waiter's predicate on CALLER (C20; lock-boundary interference model; level `other`)
 verus! {
 //@ include prelude/base.rs
 
 // ---- substitution-based model of the shared state (see DESIGN C20) ----
-// `*caller` (the value inside the Mutex) and CALLER_INFO_SOURCE (an AtomicUsize only accessed while
-// the lock is held in these sections) become fields of one struct; lock()/unwrap() are dropped, the
-// Condvar notification becomes a ghost flag.  ASSUMED: the mutex serialises the sections.
+// `*caller` (the value inside the Mutex) and CALLER_INFO_SOURCE become fields of one struct; the
+// Condvar notification becomes a ghost flag.  `caller_mutex.lock().unwrap()` becomes `verif_lock`,
+// which HAVOCS the shared state within LockInv: whatever the other thread did before we got the
+// lock has happened.  Reads of CALLER_INFO_SOURCE made before the lock is taken therefore say
+// nothing about the state afterwards.  ASSUMED: the mutex serialises the sections; CALLER_INFO_SOURCE
+// is written only while the lock is held (true of the three sections below).
 #[derive(PartialEq, Eq, Structural, Clone, Copy)]
 pub enum CallingProcess { Pending, None, Some(u64) }   // abstraction of the real enum: Pending / None / a described process
 pub const CALLER_GUESSED: usize = 1;
@@ -16,6 +19,8 @@ pub struct Shared {
     pub source: usize,
     pub notified: Ghost<bool>,
     pub launched: Ghost<Option<CallingProcess>>,   // what `delta git ...`/`delta rg ...` reported, if anything yet
+    pub at_lock: Ghost<(CallingProcess, usize)>,   // (caller, source) at the moment this thread last acquired the lock
+    pub locked: Ghost<bool>,
 }
 /// LockInv: once the source is KNOWN the cell holds exactly the launched command and is not Pending.
 pub open spec fn lockinv(sh: &Shared) -> bool {
@@ -25,33 +30,59 @@ pub open spec fn lockinv(sh: &Shared) -> bool {
 }
 pub fn verif_notify_all(sh: &mut Shared)
     ensures final(sh).caller == old(sh).caller, final(sh).source == old(sh).source, final(sh).launched == old(sh).launched, final(sh).notified@,
+            final(sh).at_lock == old(sh).at_lock, final(sh).locked == old(sh).locked,
 { sh.notified = Ghost(true); }
+/// (R3) `caller_mutex.lock().unwrap()`: the other thread may have run; afterwards we own the state.
+#[verifier::external_body]
+pub fn verif_lock(sh: &mut Shared)
+    requires !old(sh).locked@,   // @C20:the.lock.is.taken.once
+    ensures lockinv(final(sh)), final(sh).locked@, final(sh).at_lock@ == (final(sh).caller, final(sh).source),
+            final(sh).notified == old(sh).notified,
+{ unimplemented!() }
+/// the process-tree scan; ASSUMED to return (never Pending)
+#[verifier::external_body]
+pub fn determine_calling_process() -> (r: CallingProcess) ensures r != CallingProcess::Pending { unimplemented!() }
+/// (R3) `CALLER_INFO_SOURCE.load(..)`: reading the source without the lock tells nothing that lasts
+pub fn verif_load_source(sh: &Shared) -> (r: usize) ensures sh.locked@ ==> r == sh.source { sh.source }
 
 //@ region src/utils/process.rs start_determining_calling_process_in_thread
-//@sig pub fn guess_section(sh: &mut Shared, calling_process: CallingProcess)
-//@from <<<if CALLER_INFO_SOURCE>>>
+//@sig pub fn guess_thread_body(sh: &mut Shared)
+//@fromafter <<<.spawn(move || {>>>
 //@to <<<determine_done.notify_all();>>>
-//@rewrite <<<CALLER_INFO_SOURCE.load(DELTA_ATOMIC_ORDERING)>>> => <<<sh.source>>>
+//@rewrite <<<let (caller_mutex, determine_done) = &**CALLER;>>> => <<<>>>
+//@rewrite <<<let mut caller = caller_mutex.lock().unwrap();>>> => <<<verif_lock(sh);>>>
+//@rewriteall <<<CALLER_INFO_SOURCE.load(DELTA_ATOMIC_ORDERING)>>> => <<<verif_load_source(sh)>>>
 //@rewrite <<<*caller = calling_process;>>> => <<<sh.caller = calling_process;>>>
 //@rewrite <<<determine_done.notify_all();>>> => <<<verif_notify_all(sh);>>>
-//@| requires lockinv(old(sh)), calling_process != CallingProcess::Pending,
-//@| ensures lockinv(final(sh)),  // @C20:guess.preserves.lock.invariant
-//@|         old(sh).source == CALLER_KNOWN ==> final(sh).caller == old(sh).caller,  // @C20:guess.never.overwrites.a.launched.command
-//@|         final(sh).caller != CallingProcess::Pending,  // @C20:guess.leaves.an.answer
+//@| requires !old(sh).locked@,
+//@| ensures final(sh).locked@ ==> lockinv(final(sh)),  // @C20:guess.preserves.lock.invariant
+//@|         final(sh).locked@ && final(sh).at_lock@.1 == CALLER_KNOWN ==> final(sh).caller == final(sh).at_lock@.0,  // @C20:guess.never.overwrites.a.launched.command
+//@|         final(sh).locked@ && final(sh).caller != CallingProcess::Pending,  // @C20:guess.leaves.an.answer
 //@|         final(sh).notified@,  // @C20:guess.wakes.the.waiter
-//@|         final(sh).source == old(sh).source,
+//@|         final(sh).locked@ ==> final(sh).source == final(sh).at_lock@.1,
 
 //@ region src/utils/process.rs set_calling_process
 //@sig pub fn known_section(sh: &mut Shared, result: CallingProcess)
-//@from <<<*caller =>>>
+//@from <<<let mut caller = caller_mutex.lock().unwrap();>>>
 //@to <<<determine_done.notify_all();>>>
+//@rewrite <<<let mut caller = caller_mutex.lock().unwrap();>>> => <<<verif_lock(sh);>>>
 //@rewrite <<<*caller = result;>>> => <<<sh.caller = result; sh.launched = Ghost(Some(result));>>>
 //@rewrite <<<CALLER_INFO_SOURCE.store(CALLER_KNOWN, DELTA_ATOMIC_ORDERING);>>> => <<<sh.source = CALLER_KNOWN;>>>
 //@rewrite <<<determine_done.notify_all();>>> => <<<verif_notify_all(sh);>>>
-//@| requires lockinv(old(sh)), result != CallingProcess::Pending,
+//@| requires !old(sh).locked@, result != CallingProcess::Pending,
 //@| ensures lockinv(final(sh)),  // @C20:known.preserves.lock.invariant
 //@|         final(sh).source == CALLER_KNOWN && final(sh).caller == result,  // @C20:known.is.recorded.as.known
 //@|         final(sh).notified@,  // @C20:known.wakes.the.waiter
+
+/// (R3) `Arc::new((Mutex::new(x), Condvar::new()))`: the shared cell with its first content
+pub fn verif_shared_new(x: (CallingProcess)) -> (r: CallingProcess) ensures r == x { x }
+//@ region src/utils/process.rs lazy_static
+//@sig pub fn caller_initial_content() -> (r: CallingProcess)
+//@from <<<Arc::new((Mutex::new(>>>
+//@to <<<Condvar::new()))>>>
+//@rewrite <<<Arc::new((Mutex::new(>>> => <<<verif_shared_new((>>>
+//@rewrite <<<, Condvar::new()))>>> => <<<)>>>
+//@| ensures r == CallingProcess::Pending,  // @C20:no.answer.exists.before.one.is.stored.so.an.early.query.waits
 
 //@ region src/utils/process.rs calling_process
 //@sig pub fn wait_predicate(caller: &CallingProcess) -> (r: bool)
